@@ -17,6 +17,7 @@ import (
 	"io"
 	"net/http"
 	"os"
+	"sync"
 
 	"github.com/docker/distribution/uuid"
 	"github.com/uber/kraken/core"
@@ -26,13 +27,43 @@ import (
 	"github.com/uber/kraken/utils/log"
 )
 
+// uploadLock serializes the commit of an upload against its in-flight patches.
+type uploadLock struct {
+	sync.RWMutex
+	refs int
+}
+
 // uploader executes a chunked upload.
 type uploader struct {
 	cas *store.CAStore
+
+	mu    sync.Mutex
+	locks map[string]*uploadLock // Keyed by upload id, entries live while referenced.
 }
 
 func newUploader(cas *store.CAStore) *uploader {
-	return &uploader{cas}
+	return &uploader{cas: cas, locks: make(map[string]*uploadLock)}
+}
+
+func (u *uploader) acquireLock(uid string) *uploadLock {
+	u.mu.Lock()
+	defer u.mu.Unlock()
+	l, ok := u.locks[uid]
+	if !ok {
+		l = &uploadLock{}
+		u.locks[uid] = l
+	}
+	l.refs++
+	return l
+}
+
+func (u *uploader) releaseLock(uid string, l *uploadLock) {
+	u.mu.Lock()
+	defer u.mu.Unlock()
+	l.refs--
+	if l.refs == 0 {
+		delete(u.locks, uid)
+	}
 }
 
 func (u *uploader) start(d core.Digest) (uid string, err error) {
@@ -55,6 +86,14 @@ func (u *uploader) start(d core.Digest) (uid string, err error) {
 func (u *uploader) patch(
 	d core.Digest, uid string, chunk io.Reader, start, end int64,
 ) error {
+	// A patch holds an open handle on the upload file while its body streams
+	// in. Commit verifies and then renames that same file into the cache, so
+	// it must not run until every in-flight patch has finished writing.
+	l := u.acquireLock(uid)
+	defer u.releaseLock(uid, l)
+	l.RLock()
+	defer l.RUnlock()
+
 	if ok, err := blobExists(u.cas, d); err != nil {
 		log.With("digest", d.Hex(), "uid", uid).Errorf("Failed to check if blob exists: %s", err)
 		return err
@@ -86,6 +125,11 @@ func (u *uploader) patch(
 }
 
 func (u *uploader) commit(d core.Digest, uid string) error {
+	l := u.acquireLock(uid)
+	defer u.releaseLock(uid, l)
+	l.Lock()
+	defer l.Unlock()
+
 	log.With("digest", d.Hex(), "uid", uid).Debug("Moving upload file to cache")
 	if err := u.cas.MoveUploadFileToCache(uid, d.Hex()); err != nil {
 		if os.IsNotExist(err) {
